@@ -191,7 +191,7 @@ theorem toWire_shape_opt (m : Message) (lim : Nat) (w : Bytes) (hpad : m.pad = 0
           rw [List.drop_append_of_le_length (by simp)]
           simp
         | some o =>
-          simp only [hopt, hts, RState.addOpt, hpad, ne_eq, not_true_eq_false, if_false] at h
+          simp only [hopt, hts, hpad, addOpt_zero, RState.addOptCore, ne_eq, not_true_eq_false, if_false] at h
           have hrel := addItem_rel r3.releaseReserved (.rr ConstsC03.secADDITIONAL (optRRset o))
           simp only [RState.addItem] at hrel
           rw [hrel] at h
